@@ -71,11 +71,12 @@ var plans = map[string]Plan{
 	},
 	"C03": {
 		Level: "exploration",
-		Rule: "cases are (bytes, requested wire type, read segmentation): uniform random bytes; grammar-aware mutations (length/count edits incl. -1, -2^31, 2^31-1, true+-1; type-byte swaps; bool bytes; field ids; truncation; bit flips; insert/delete) of reference encodings of random trees; every prefix of valid encodings; deep-nesting probes in child processes. " +
+		Rule: "cases are (bytes, requested wire type, read segmentation and concrete source types): the random-access decoder reads from a drawn io.ReaderAt (*bytes.Reader, *strings.Reader, *io.SectionReader, or a plain one that reports io.EOF together with the last bytes of the input or only on the next call; never short reads), the streaming reader and Skip from the drawn segmentation with and without Seek and, in two cases of five, from *bytes.Buffer, *bytes.Reader, *strings.Reader, *bufio.Reader or *io.SectionReader; inputs: uniform random bytes; grammar-aware mutations (length/count edits incl. -1, -2^31, 2^31-1, true+-1; type-byte swaps; bool bytes; field ids; truncation; bit flips; insert/delete) of reference encodings of random trees; every prefix of valid encodings; deep-nesting probes in child processes. " +
 			"Oracle: no panic, no hang (20s watchdog, re-tried), decode+force success => re-encoding == consumed prefix (both readers) and Skip consumes exactly the same (seekable and non-seekable). " +
 			"Non-trivial: the input decodes to a tree with a non-empty container, or a length/count/type byte was edited. Distinct: SHA-256 of (input, type). Also: wire.EvaluateValue must accept exactly the inputs whose lazily decoded containers can all be read element by element (key ra/evaluate-disagrees); unit big-binaries: valid structs of 1-3 binaries around the 1 MiB threshold of the streaming reader (symbolic cases, input rebuilt on replay).",
 		Assumptions: []string{
 			"internal/bridge's schema-less stream walker is a legitimate caller of stream.Reader (it rejects unknown type codes itself)",
+			"bytes consumed = the position the owner of the source observes afterwards (Seek(0, current), bytes.Buffer.Len, bufio: handed out, not read ahead)",
 			"a 20 s watchdog (x3 retries) on <=64 KiB inputs stands in for 'never hangs'",
 			"deep-nesting probe: a child process dying with 'stack overflow' is the observation; depths 2^12..2^22",
 		},
